@@ -246,7 +246,9 @@ func c01Settled(run *evid.Run, n int, churn bool) (evals, placements int) {
 					defer churnWG.Done()
 					a := c01Addressings()[(q+step)%8]
 					res := e4.Do(nodes[(q+step)%n].ProxyAddr(), e4.Addressing{Mode: a.Mode, Endpoint: a.Endpoint, Other: a.Other})
-					ok := res.Status == 200 || res.Status == 101
+					// a tunnel that was cut by the very disconnect under test has no
+					// stamp; only an answer from an upstream can be a wrong answer
+					ok := (res.Status == 200 || res.Status == 101) && res.Err == "" && res.Endpoint != ""
 					if ok && res.Endpoint != a.Endpoint {
 						run.Violation("C01", "delivered-to-wrong-endpoint", fmt.Sprintf("during churn at placement step %d: %+v -> %s", step, a, res), map[string]any{"engine": "E4-C01-settled", "placement": place, "nodes": n})
 					}
